@@ -105,7 +105,7 @@ func genObj(t *rapid.T) ObjCase {
 	c := ObjCase{Seed: rapid.Uint64().Draw(t, "seed"), Kind: pickStr(t, "kind", []string{"sct", "sct", "sth"}), OptIn: rapid.Bool().Draw(t, "optin")}
 	for {
 		c.Key = genKey(t, "key")
-		if keys.Get(c.Key).Kind != "ed25519" || pick(t, "ed", 4) == 0 {
+		if getKey(c.Key).Kind != "ed25519" || pick(t, "ed", 4) == 0 {
 			break
 		}
 	}
@@ -130,7 +130,7 @@ func genObj(t *rapid.T) ObjCase {
 	c.LogID = genBytes32(t, "logid")
 	nm := []int{0, 0, 1, 1, 1, 1, 1, 2, 2, 2}[pick(t, "nmut", 10)]
 	for i := 0; i < nm; i++ {
-		c.Muts = append(c.Muts, genObjMut(t, fmt.Sprintf("mut%d", i), c.Kind, keys.Get(c.Key)))
+		c.Muts = append(c.Muts, genObjMut(t, fmt.Sprintf("mut%d", i), c.Kind, getKey(c.Key)))
 	}
 	return c
 }
@@ -285,7 +285,7 @@ func (o *objState) verifyWith(kind string, sv *ct.SignatureVerifier) (got error,
 
 // newObjState builds the object of c as issued (signed over the reference input, nothing mutated yet).
 func newObjState(c ObjCase) (*objState, []byte, error) {
-	k := keys.Get(c.Key)
+	k := getKey(c.Key)
 	o := &objState{ts: c.Timestamp, ext: c.Ext, etype: c.EntryType, cert: c.Cert, ikh: to32(c.IKH), tbs: c.TBS, logID: to32(c.LogID), sthLogID: to32(c.LogID),
 		leafTS: c.Timestamp, leafExt: c.Ext, treeSize: c.TreeSize, root: to32(c.Root)}
 	orig, err := o.refInput(c.Kind)
@@ -304,7 +304,7 @@ func checkObj(t *testing.T, c ObjCase) (v harness.Verdict) {
 	ct.AllowVerificationWithNonCompliantKeys = c.OptIn
 	defer func() { ct.AllowVerificationWithNonCompliantKeys = false }()
 
-	k := keys.Get(c.Key)
+	k := getKey(c.Key)
 	o, orig, err := newObjState(c)
 	if err != nil {
 		v.Failf("harness-selfcheck", "generated object has no signed input: %v", err)
